@@ -461,12 +461,13 @@ def run_case(case):
             else:
                 COL.ok("C10.scalar-array", (kind, "sky2image", find, dist))
         else:
-            res, e = probe.attempt(w.get_jacobian, gen.maybe_view(rng, x), gen.maybe_view(rng, y), distort=dist)
+            stepkw = {} if rng.random() < .5 else {"step": float(rng.choice([0.25, 0.5, 2.0, 3.0]))}
+            res, e = probe.attempt(w.get_jacobian, gen.maybe_view(rng, x), gen.maybe_view(rng, y), distort=dist, **stepkw)
             if e is not None:
                 key = "sip/distort-false-unboundlocal" if kind == "sip" and not dist and isinstance(e, UnboundLocalError) else None
                 COL.violation("C10.jacobian", "get_jacobian raised %s: %s" % (type(e).__name__, str(e)[:120]), wit, key=key)
                 continue
-            sc = [probe.attempt(w.get_jacobian, float(a), float(b), distort=dist)[0] for a, b in zip(x, y)]
+            sc = [probe.attempt(w.get_jacobian, float(a), float(b), distort=dist, **stepkw)[0] for a, b in zip(x, y)]
             if any(s is None for s in sc) or not same([[s[j] for s in sc] for j in range(4)], res, 1e-9):
                 COL.violation("C10.scalar-array", "get_jacobian: scalar calls differ from the array call", wit)
             else:
